@@ -393,6 +393,162 @@ def w_gaussianlog(m, lay, rng, variant):
     return "m.log", "\n".join(lines) + "\n", exp
 
 
+def w_orcalog(m, lay, rng, variant):
+    """The blocks of an ORCA output file iodata reads (shapes as printed by ORCA 4/5); the geometry of the last cycle counts."""
+    n = m.natom
+    masses = [round(1.008 + 0.731 * (i % 150), 3) for i in range(n)]
+    lines = ["                                 *****************", "                                 * O   R   C   A *", ""]
+    ncycle = 2 if variant == "opt" else 1
+    e_scf = []
+    for cyc in range(ncycle):
+        xyz = m.xyz + (0.0 if cyc == ncycle - 1 else 0.37)      # coordinates in bohr; earlier cycles differ
+        ang = xyz * 0.52917721
+        lines += ["---------------------------------", "CARTESIAN COORDINATES (ANGSTROEM)", "---------------------------------"]
+        lines += [f"  {sy:<2s}  {a[0]:12.6f}{a[1]:12.6f}{a[2]:12.6f}" for sy, a in zip(m.sym, ang)]
+        lines += ["", "----------------------------", "CARTESIAN COORDINATES (A.U.)", "----------------------------",
+                  "  NO LB      ZA    FRAG     MASS         X           Y           Z"]
+        lines += [f"{i:4d} {sy:<2s}  {float(z):8.4f}    0  {ms:8.3f} {r[0]:11.6f} {r[1]:11.6f} {r[2]:11.6f}" for i, (sy, z, ms, r) in enumerate(zip(m.sym, m.z, masses, xyz))]
+        lines += ["", "--------------", "SCF ITERATIONS", "--------------",
+                  "ITER       Energy         Delta-E        Max-DP      RMS-DP      [F,P]     Damp",
+                  "               ***  Starting incremental Fock matrix formation  ***"]
+        e_scf = [round(-76.3 - 0.011 * k - 0.5 * cyc, 8) for k in range(3 + cyc)]
+        for k, e in enumerate(e_scf):
+            lines.append(f"{k:3d}   {e:13.8f} {e:14.10f}  0.000433  0.000433  0.001101  0.000179")
+            if k == 0:
+                lines.append("               *** Restarting incremental Fock matrix formation ***")
+        lines += ["                 **** Energy Check signals convergence ****", "", ""]
+        energy = round(-76.347791524303 - 1.25 * cyc - 0.001 * n, 12)
+        lines += ["-------------------------   --------------------", f"FINAL SINGLE POINT ENERGY   {energy:20.12f}",
+                  "-------------------------   --------------------", ""]
+    dip = [round(0.76499 + 0.001 * n, 5), -0.31234, round(0.5423 - 0.002 * n, 5)]
+    lines += ["Electronic contribution:     -0.01946       0.00000      -0.01514", "Nuclear contribution   :      0.74552       0.00000       0.52716",
+              "                        -----------------------------------------",
+              f"Total Dipole Moment    : {dip[0]:12.5f} {dip[1]:13.5f} {dip[2]:13.5f}",
+              "                        -----------------------------------------", "Magnitude (a.u.)       :      0.93771", ""]
+    exp = {"atnums": m.z, "atcoords": m.xyz, "energy": energy, "moments.(1,c)": dip, "extra.scf_energies": e_scf}
+    return "m.out", "\n".join(lines) + "\n", exp
+
+
+def w_gamess(m, lay, rng, variant):
+    """GAMESS / Firefly PUNCH file: $DATA group, coordinates of the final geometry, $GRAD, $HESS (after an approximate one that
+    must be ignored), atomic masses."""
+    n = m.natom
+    ang = m.xyz                                    # angstrom
+    sym = [s_.upper() for s_ in m.sym]
+    lines = [" $DATA", "$DATA"][1:]
+    lines += [f"{m.title:<80s}", "C1       0"]
+    for sy, z, r in zip(sym, m.z, ang):
+        lines += [f"{sy:<10s}{float(z):5.1f}{r[0]:18.10f}{r[1]:18.10f}{r[2]:18.10f}", "   N311       6", "   P          1",
+                  "     1         1.5000000000  1.00000000", "           "]
+    lines.append(" $END      ")
+    grad = np.array([[round((-1) ** (i + k) * (1.1e-5 + 3.7e-7 * (3 * i + k)), 15) for k in range(3)] for i in range(n)])
+    energy = round(-959.9675629527 - 0.01 * n, 10)
+
+    def grad_group(shift):
+        out = [" $GRAD", f"E={energy + shift:20.10f}  GMAX=   0.0000338  GRMS=   0.0000154"]
+        out += [f"{sy:<10s}{float(z):5.0f}.{g[0] + shift:20.10E}{g[1]:20.10E}{g[2]:20.10E}" for sy, z, g in zip(sym, m.z, grad)]
+        return out + [" $END"]
+
+    def hess_group(h):
+        out = [" $HESS", f"ENERGY IS {energy:20.10f} E(NUC) IS      273.9207388851"]
+        for i in range(3 * n):
+            row = h[i]
+            for c0 in range(0, 3 * n, 5):
+                out.append(f"{(i + 1) % 100:2d}{c0 // 5 + 1:3d}" + "".join(f"{v:15.8E}" for v in row[c0:c0 + 5]))
+        return out + [" $END"]
+
+    hess = np.array([[round((-1) ** (i + j) * (2.5e-2 + 1.3e-4 * min(i, j) + 1.7e-6 * max(i, j)), 10) for j in range(3 * n)] for i in range(3 * n)])
+    if variant == "opt":
+        lines += grad_group(0.5)                   # the gradient of an earlier geometry: the last one counts
+    lines += ["----- RESULTS FROM SUCCESSFUL RHF      GEOMETRY SEARCH -----", "----- COORDS, ORBS, GRADIENT, AND APPROX. HESSIAN -----",
+              " COORDINATES OF SYMMETRY UNIQUE ATOMS (ANGS)", "   ATOM   CHARGE       X              Y              Z",
+              " ------------------------------------------------------------"]
+    lines += [f" {sy:<10s}{float(z):5.1f}{r[0]:15.10f}{r[1]:15.10f}{r[2]:15.10f}" for sy, z, r in zip(sym, m.z, ang)]
+    lines += grad_group(0.0)
+    lines += ["CAUTION, APPROXIMATE HESSIAN!"] + hess_group(hess * 0.0 + 0.333)
+    lines += grad_group(0.0)
+    lines += hess_group(hess)
+    lines += ["----- START OF NORMAL MODES FOR -MOLPLT- PROGRAM -----", "ATOMIC MASSES"]
+    masses = [round(1.00782 + 1.731 * (i % 120), 5) for i in range(n)]
+    for c0 in range(0, n, 5):
+        lines.append("".join(f"{v:12.5f}" for v in masses[c0:c0 + 5]))
+    lines.append("MODE    1   FREQUENCY=   2.35182 (CM**-1)")
+    exp = {"atnums": m.z, "atcoords": ang, "energy": energy, "atgradient": grad, "athessian": hess, "title": m.title, "atmasses_amu": masses}
+    return "m.dat", "\n".join(lines) + "\n", exp
+
+
+def w_qchemlog(m, lay, rng, variant):
+    """The sections of a Q-Chem output file iodata reads (shapes as printed by Q-Chem 5)."""
+    n = m.natom
+    unres = variant == "unrestricted"
+    ang = m.xyz
+    nbasis = 5 + 2 * n
+    nel = sum(m.z)
+    na = (nel + (1 if (unres and nel % 2) else 0)) // 2
+    nb = nel - na
+    na, nb = min(na, nbasis - 1), min(nb, nbasis - 1)
+    lines = ["                  Welcome to Q-Chem", "$molecule", "0 1", "$end", "", "$rem", "ideriv                  2",
+             f"jobtype                 {'freq' if variant == 'freq' else 'sp'}", "method                  hf",
+             f"unrestricted            {1 if unres else 0}", "basis                   cc-pvtz", "symmetry                false", "$end", "",
+             " ----------------------------------------------------------------",
+             "             Standard Nuclear Orientation (Angstroms)", "    I     Atom           X                Y                Z",
+             " ----------------------------------------------------------------"]
+    lines += [f"{i + 1:5d}      {sy:<2s}{r[0]:17.10f}{r[1]:17.10f}{r[2]:17.10f}" for i, (sy, r) in enumerate(zip(m.sym, ang))]
+    nuc = round(9.19775748 + 0.5 * n, 8)
+    lines += [" ----------------------------------------------------------------", f" Nuclear Repulsion Energy = {nuc:20.8f} hartrees",
+              f" There are {na:8d} alpha and {nb:8d} beta electrons", " Requested basis set is cc-pVTZ",
+              f" There are {n * 3} shells and {nbasis} basis functions", ""]
+    energy = round(-76.0571936393 - 0.37 * n, 10)
+    lines += [f" Total energy in the final basis set = {energy:19.10f}", "", " --------------------------------------------------------------",
+              "", "                    Orbital Energies (a.u.)", " --------------------------------------------------------------", ""]
+
+    def mo_block(label, nocc, shift):
+        occ = [round(-20.5546 + 0.7301 * k + shift, 4) for k in range(nocc)]
+        vir = [round(0.1423 + 0.0617 * k + shift, 4) for k in range(nbasis - nocc)]
+        out = [f" {label} MOs", " -- Occupied --"]
+        for c0 in range(0, len(occ), 8):
+            out.append("".join(f"{v:8.4f} " for v in occ[c0:c0 + 8]).rstrip())
+        out.append(" -- Virtual --")
+        for c0 in range(0, len(vir), 8):
+            out.append("".join(f"{v:8.4f} " for v in vir[c0:c0 + 8]).rstrip())
+        return out, occ + vir
+
+    blk, ea = mo_block("Alpha", na, 0.0)
+    lines += blk + [""]
+    eb = []
+    if unres:
+        blk, eb = mo_block("Beta", nb, 0.0011)
+        lines += blk
+    lines += [" --------------------------------------------------------------", "",
+              "          Ground-State Mulliken Net Atomic Charges", "", "     Atom                 Charge (a.u.)" + ("    Spin (a.u.)" if unres else ""),
+              "  " + "-" * (56 if unres else 40)]
+    charges = [round((-1) ** i * (0.1 + 0.0013 * (i % 600)), 6) for i in range(n)]
+    lines += [f"{i + 1:7d} {sy:<2s}{q:29.6f}" + (f"{0.0:15.6f}" if unres else "") for i, (sy, q) in enumerate(zip(m.sym, charges))]
+    lines += ["  " + "-" * (56 if unres else 40), "  Sum of atomic charges =    -0.000000", ""]
+    exp = {"atnums": m.z, "atcoords": ang, "energy": energy, "atcharges.mulliken": charges, "extra.nuclear_repulsion_energy": nuc,
+           "mo.energies": ea + eb, "lot": "hf", "obasis_name": "cc-pvtz", "run_type": "freq" if variant == "freq" else "sp"}
+    if variant == "freq":
+        d = 3 * n
+        hess = np.array([[round((-1) ** (i + j) * (0.03 + 0.0013 * min(i, j) + 0.000017 * max(i, j)), 7) for j in range(d)] for i in range(d)])
+        lines.append(" Hessian of the SCF Energy")
+        for c0 in range(0, d, 6):
+            cols = range(c0, min(c0 + 6, d))
+            lines.append("    " + "".join(f"{c + 1:12d}" for c in cols))
+            for i in range(d):
+                lines.append(f"{i + 1:5d}" + "".join(f"{hess[i, c]:12.7f}" for c in cols))
+        lines += [" **********************************************************************", " **                                                                  **",
+                  " **                       VIBRATIONAL ANALYSIS                       **", "",
+                  " STANDARD THERMODYNAMIC QUANTITIES AT   298.15 K  AND     1.00 ATM", "", "   This Molecule has  0 Imaginary Frequencies",
+                  "   Zero point vibrational energy:       13.882 kcal/mol", ""]
+        vmass = [round(1.00783 + 1.731 * (i % 120), 5) for i in range(n)]
+        lines += [f"   Atom {i + 1:4d} Element {sy:<2s} Has Mass {ms:10.5f}" for i, (sy, ms) in enumerate(zip(m.sym, vmass))]
+        lines += [f"   Molecular Mass: {sum(vmass):12.6f} amu", ""]
+        exp["athessian"] = hess
+        exp["atmasses_amu"] = vmass
+    lines += ["        *************************************************************", "        *  Thank you very much for using Q-Chem.  Have a nice day.  *", ""]
+    return "m.out", "\n".join(lines) + "\n", exp
+
+
 def _fchk_array(lay, label, vals, real):
     rec = lay["fchk_rarray" if real else "fchk_iarray"]
     out = [render_record(rec, {"label": label, "count": len(vals)})]
@@ -471,12 +627,14 @@ def w_fchk(m, lay, rng, variant):
 
 WRITERS = {"xyz": w_xyz, "extxyz": w_extxyz, "sdf": w_sdf, "pdb": w_pdb, "gromacs": w_gro, "charmm": w_crd, "mol2": w_mol2,
            "poscar": w_poscar, "chgcar": w_chgcar, "locpot": w_locpot, "cube": w_cube, "fcidump": w_fcidump,
-           "gaussianinput": w_gaussianinput, "json_qcschema": w_json, "fchk": w_fchk, "gaussianlog": w_gaussianlog}
+           "gaussianinput": w_gaussianinput, "json_qcschema": w_json, "fchk": w_fchk, "gaussianlog": w_gaussianlog,
+           "orcalog": w_orcalog, "gamess": w_gamess, "qchemlog": w_qchemlog}
 VARIANTS = {"xyz": ["plain", "numbers"], "poscar": ["direct", "cartesian", "selective", "scaled"], "cube": ["five", "ragged", "six", "one"],
-            "gromacs": ["rect", "triclinic"], "json_qcschema": ["plain", "massnumbers"], "gaussianlog": ["plain", "twoel"]}
+            "gromacs": ["rect", "triclinic"], "json_qcschema": ["plain", "massnumbers"], "gaussianlog": ["plain", "twoel"], "orcalog": ["plain", "opt"], "gamess": ["plain", "opt"],
+            "qchemlog": ["plain", "unrestricted", "freq"]}
 # coordinate digits written per format and the magnitude classes its columns can hold
 DIGITS = {"xyz": 8, "extxyz": 8, "sdf": 4, "pdb": 3, "gromacs": 3, "charmm": 5, "mol2": 4, "poscar": 8, "chgcar": 8, "locpot": 8, "cube": 6,
-          "fcidump": 3, "gaussianinput": 8, "json_qcschema": 8, "fchk": 8, "gaussianlog": 6}
+          "fcidump": 3, "gaussianinput": 8, "json_qcschema": 8, "fchk": 8, "gaussianlog": 6, "orcalog": 6, "gamess": 10, "qchemlog": 10}
 MAGS = {"sdf": ["small", "neg", "negwide", "negwider", "wide", "mixed"], "pdb": ["small", "neg", "negwide", "wide", "mixed"],
         "gromacs": ["small", "neg", "neghundred", "hundred", "mixed"], "charmm": ["small", "neg", "negwide", "negwider", "mixed"],
         "mol2": ["small", "negwide", "negwider", "mixed"], "cube": ["small", "neg", "negwide", "mixed"]}
@@ -484,5 +642,6 @@ SIZES = {"xyz": [1, 3, 10, 100, 1200], "extxyz": [1, 3, 10, 120], "sdf": [1, 2, 
          "pdb": [1, 2, 10, 99, 100, 1000, 9999, 10001, 12000], "gromacs": [1, 3, 10, 100, 1000, 10001], "charmm": [1, 3, 10, 100, 1000],
          "mol2": [1, 2, 10, 100, 1000], "poscar": [1, 2, 5, 8, 30], "chgcar": [1, 2, 5, 8], "locpot": [1, 2, 5], "cube": [1, 2, 3, 7],
          "fcidump": [1, 2, 3, 4], "gaussianinput": [1, 3, 10, 60], "json_qcschema": [1, 3, 10, 100], "fchk": [1, 2, 3, 5, 6, 7, 11],
-         "gaussianlog": [1, 2, 4, 5, 6, 7, 10, 11, 12, 16, 21]}
-COORD_UNIT = {"gromacs": "nanometer", "cube": "au", "fchk": "au", "json_qcschema": "au"}
+         "gaussianlog": [1, 2, 4, 5, 6, 7, 10, 11, 12, 16, 21], "orcalog": [1, 2, 3, 10, 100, 120], "gamess": [1, 2, 3, 4, 5, 6, 11, 34],
+         "qchemlog": [1, 2, 3, 4, 5, 7, 12, 30]}
+COORD_UNIT = {"gromacs": "nanometer", "cube": "au", "fchk": "au", "json_qcschema": "au", "orcalog": "au"}
